@@ -2,6 +2,7 @@ import PestModel.Model.StackDriver
 import PestModel.Model.LineColDriver
 import PestModel.Model.PrattDriver
 import PestModel.Model.PStateDriver
+import PestModel.Model.ViewsDriver
 
 open PestModel
 
@@ -19,4 +20,5 @@ def main (args : List String) : IO UInt32 := do
   | ["linecol"] => loop stdin stdout LineColDriver.runLine; return 0
   | ["pratt"] => loop stdin stdout PrattDriver.runLine; return 0
   | ["prog"] => loop stdin stdout PStateDriver.runLine; return 0
+  | ["views"] => loop stdin stdout ViewsDriver.runLine; return 0
   | _ => IO.eprintln "usage: pestmodel <mode>"; return 2
